@@ -169,7 +169,11 @@ func syncRun(args map[string]string) error {
 	}
 	beh := 0
 	for _, n := range sizes {
-		for _, withLeader := range []bool{true, false} {
+		for mode := 0; mode < 3; mode++ { // every region has a leader / none has (the leader just restarted) / mixed
+			withLeader := mode == 0
+			if mode == 2 && n < 2 {
+				continue
+			}
 			if err := func() error {
 				ctx, cancel := context.WithCancel(context.Background())
 				defer cancel()
@@ -185,7 +189,7 @@ func syncRun(args map[string]string) error {
 				defer os.RemoveAll(leader.dir)
 				leader.leader = leader.member
 				for i := 1; i <= n; i++ {
-					leader.bc.PutRegion(region(i, withLeader))
+					leader.bc.PutRegion(region(i, mode == 0 || (mode == 2 && i%7 != 3)))
 				}
 				// the leader has been running for a while: its change log starts at a persisted index, so a follower that
 				// starts from index 0 is outside the window and gets a full synchronisation
